@@ -239,3 +239,55 @@ Print Assumptions C08_roll_inverse.
 Theorem C08_identity_square : forall (R : CRing) N (x : list R), length x = N -> ident_adj R N N (ident_fwd R N N x) = x.
 Proof. exact ident_square. Qed.
 Print Assumptions C08_identity_square.
+
+(* ---- Haar DWT as pylops.signalprocessing.DWT(wavelet='haar') computes it (Ops/Haar.v):
+   c = 1/sqrt 2 is a parameter with c*c*(1+1) = 1, conj c = c.  All lengths 2^L * m, all levels. ---- *)
+From PV Require Import Haar.
+Theorem C08_haar_inverse :
+  forall (K : StarRing) (c : K), c * c * (1 + 1) = 1 ->
+    forall L m (x : list K), length x = (2 ^ L * m)%nat ->
+      hinv K c L (hfwd K c L x) = x /\ hfwd K c L (hinv K c L x) = x.
+Proof. intros K c Hc L m x H. split; [apply (hinv_hfwd K c Hc L m) | apply (hfwd_hinv K c Hc L m)]; auto. Qed.
+Print Assumptions C08_haar_inverse.
+Theorem C08_haar_adjoint_is_inverse :
+  forall (K : StarRing) (c : K), conj K c = c ->
+    forall L m (x y : list K), length x = (2 ^ L * m)%nat -> length y = (2 ^ L * m)%nat ->
+      dot K (hfwd K c L x) y = dot K x (hinv K c L y).
+Proof. intros K c Hr. exact (hfwd_adjoint K c Hr). Qed.
+Print Assumptions C08_haar_adjoint_is_inverse.
+Theorem C08_haar_isometry :
+  forall (K : StarRing) (c : K), c * c * (1 + 1) = 1 -> conj K c = c ->
+    forall L m (x x' : list K), length x = (2 ^ L * m)%nat -> length x' = (2 ^ L * m)%nat ->
+      dot K (hfwd K c L x) (hfwd K c L x') = dot K x x'.
+Proof. exact hfwd_isometry. Qed.
+Print Assumptions C08_haar_isometry.
+(* the operator with pylops' padding to max(2^ceil(log2 n), 2^level) and crop: for EVERY n and level
+   Op^H Op x = x, (Op, Op^H) is an adjoint pair, Op is an isometry *)
+Theorem C08_haar_dwt_isometry :
+  forall (K : StarRing) (c : K), c * c * (1 + 1) = 1 -> conj K c = c ->
+    forall L (x x' y : list K),
+      dwt_adj K c L (length x) (dwt_fwd K c L x) = x /\
+      (length y = padlen (length x) L -> dot K (dwt_fwd K c L x) y = dot K x (dwt_adj K c L (length x) y)) /\
+      (length x = length x' -> dot K (dwt_fwd K c L x) (dwt_fwd K c L x') = dot K x x').
+Proof. intros K c Hc Hr L x x' y. split; [apply dwt_adj_fwd; auto|]. split; intros; [apply dwt_adjoint | apply dwt_isometry]; auto. Qed.
+Print Assumptions C08_haar_dwt_isometry.
+(* Op Op^H is an idempotent (projector onto the range of Op); it is the identity when no padding was
+   needed, and NOT the identity otherwise (witness below) *)
+Theorem C08_haar_dwt_projector :
+  forall (K : StarRing) (c : K), c * c * (1 + 1) = 1 ->
+    forall L n (y : list K), length y = padlen n L ->
+      dwt_fwd K c L (dwt_adj K c L n (dwt_fwd K c L (dwt_adj K c L n y))) = dwt_fwd K c L (dwt_adj K c L n y) /\
+      (padlen n L = n -> dwt_fwd K c L (dwt_adj K c L n y) = y).
+Proof. intros K c Hc L n y H. split; [apply dwt_fwd_adj_idempotent; auto|]. intros Hp. apply dwt_fwd_adj_nopad; auto. lia. Qed.
+Print Assumptions C08_haar_dwt_projector.
+(* non-vacuity and the refutation of "Op Op^H = id" for n = 3, level 1 (padded to 4), in the exact
+   field Q(sqrt 2), c = sqrt2 / 2; the model row [1/2 1/2 1/2 1/2] of level 2 on n = 4 is exact *)
+Example C08_haar_example :
+  rmul Q2S (rmul Q2S q2c q2c) (radd Q2S (r1 Q2S) (r1 Q2S)) = r1 Q2S /\ conj Q2S q2c = q2c /\
+  (exists y : list Q2S, length y = padlen 3 1 /\ dwt_fwd Q2S q2c 1 (dwt_adj Q2S q2c 1 3 y) <> y) /\
+  q2veqb (hfwd Q2S q2c 2 [q2h 2 0; q2h 4 0; q2h 6 0; q2h 8 0]) [q2h 10 0; q2h (-4) 0; q2h 0 (-1); q2h 0 (-1)] = true.
+Proof. split; [exact q2c_sq|]. split; [exact q2c_real|]. split.
+  - exists [q2h 0 0; q2h 2 0; q2h 0 0; q2h 0 0]. split; [reflexivity|].
+    intros E. apply (f_equal (fun v => q2veqb v [q2h 0 0; q2h 2 0; q2h 0 0; q2h 0 0])) in E. vm_compute in E. discriminate.
+  - vm_compute. reflexivity. Qed.
+Print Assumptions C08_haar_example.
